@@ -109,6 +109,7 @@ def gen_scenario(rng):
     confs = [gen_conf(rng) for _ in range(rng.randint(3, 5))]
     requests = []
     cur_fmt = {}
+    cur_cols = {}
     cur_removed = {}
     for _ in range(rng.randint(16, 30)):
         o = rng.randrange(len(objects))
@@ -117,7 +118,7 @@ def gen_scenario(rng):
             o = rng.choice([i for i, x in enumerate(objects) if x['kind'] in ('table', 'rec')])
         c = rng.randrange(len(confs))
         via = rng.choice(['explicit', 'explicit', 'global', 'palette_class', 'palette_obj', 'custom_palette',
-                          'custom_palette2', 'custom_palette3', 'custom_palette4'])
+                          'custom_palette2', 'custom_palette3', 'custom_palette4', 'palette_synced'])
         mode = rng.choice(['whole', 'whole', 'lines', 'lines_join', 'whole_then_lines', 'lines_twice', 'interleaved',
                            'copy', 'concat', 'format', 'plain', 'slice', 'fixed', 'compared', 'centred'])
         if objects[o]['kind'] in ('rec', 'hdoc', 'ppwrap'):
@@ -150,8 +151,16 @@ def gen_scenario(rng):
                     cols = [x for x in objects[o]['fmt'].split(";")[0].split(",")]
                     keep = rng.sample(cols, rng.randint(1, len(cols)))
                     cur_fmt[o] = ",".join(keep) + rng.choice([";*", ";2:1", ";*"])
+                    if rng.random() < 0.3:
+                        # (only the limits are given again: the columns stay what they are at that moment)
+                        cur_fmt[o] = rng.choice([";1:1", ";*", ";2:0"])
+                    else:
+                        cur_cols[o] = ",".join(keep)
                 if o in cur_fmt:
                     requests[-1]['set_fmt'] = cur_fmt[o]
+                    if cur_fmt[o].startswith(";"):
+                        # (what the brand-new table of the reference is built with)
+                        requests[-1]['ref_fmt'] = cur_cols.get(o, objects[o]['fmt'].split(";")[0]) + cur_fmt[o]
     # one more long-lived table: record limits, a break-by column (break lines use up the limit slots), wider
     # values further down.  It is rendered, loses the break-by column, and is rendered again.
     o = len(objects)
@@ -170,6 +179,10 @@ def gen_scenario(rng):
             if removed:
                 req['removed'] = removed
             requests.append(req)
+    # ... and then only its limits are given again: everything is shown, the wide values too
+    for nc in (False, True):
+        requests.append({'obj': o, 'conf': c, 'no_color': nc, 'mode': 'whole', 'via': 'explicit', 'long_lived_conf': False,
+                         'removed': ['b'], 'set_fmt': ";*", 'ref_fmt': objects[o]['fmt'].split(";")[0] + ";*"})
     # the first table is rendered with both custom palettes (two classes called the same) under one long-lived
     # configuration, in either order
     c = rng.randrange(len(confs))
